@@ -356,6 +356,18 @@ def gather_glue():
             raise TranslateError("redis/mod.rs: default quantity of handle_throttle not found")
         return [("with_quantity_len", q[0][0]), ("default", q[0][1])]
     table("RESP_QUANTITY", quantity)
+
+    # every read-modify-write / write on an atomic in metrics.rs (non-test part): the counter model of C15 (Server/Counters.v)
+    # assumes each recorder step is ONE atomic increment; a plain store, swap or a computed total breaks that assumption
+    met = soft_read("throttlecrab-server/src/metrics.rs").split("#[cfg(test)]")[0]
+
+    def atomic_ops():
+        ops = re.findall(r"([A-Za-z_][A-Za-z0-9_]*)\s*\.\s*(store|swap|fetch_add|fetch_sub|fetch_max|fetch_min|fetch_and|fetch_or|fetch_xor|fetch_nand|"
+                         r"fetch_update|compare_exchange_weak|compare_exchange|compare_and_swap)\s*\(\s*([^,()]*)", met)
+        if not ops:
+            raise TranslateError("metrics.rs: no atomic update found")
+        return [(recv, "%s(%s)" % (op, re.sub(r"_|[iu](8|16|32|64|128|size)$", "", arg.strip()))) for recv, op, arg in ops]
+    table("METRICS_ATOMIC_OPS", atomic_ops)
     return g
 
 
